@@ -78,6 +78,9 @@ def _run(chk, tier):
             if name.startswith('insert_insert_similar') or name in ('metadata_metadata', 'attachment_attachment', 'attachment_added_both'):
                 hand.append((name, k, b, l, rm))
                 tasks.append({'op': 'merge', 'base': b, 'local': l, 'remote': rm, 'args': {'merge_strategy': 'inline'}})
+    for name, b, l, rm in c04_cases.one_sided_id_triples():     # merged notebook declares 4.5
+        hand.append(('insert_insert_similar_one_sided_id', 5, b, l, rm))
+        tasks.append({'op': 'merge', 'base': b, 'local': l, 'remote': rm, 'args': {'merge_strategy': 'inline'}})
     from props import c04 as c04mod
     res = c04mod.run_tasks(tasks)
     exprs = []; what = []; nid = 0
